@@ -29,7 +29,8 @@ PROP = {
                   "evicts exactly the least recently used key when full, returns a value from get/get_mut/peek only within "
                   "the ttl of the last use and never again after it, and is observationally a bounded LRU map of live "
                   "entries; the model is tied to /repo by a differential run of insert/get/get_mut/peek/len/remove/"
-                  "remove_expired_values sequences against the real cache on every check.",
+                  "remove_expired_values sequences against the real cache on every check."
+                  ' Also (Props/C15SessionUse.lean, Props/C02Attribution.lean): what counts as a use of a session in the handler - sealing a request or an answer and accepting a message do; a request that only queues up, a request timeout and a packet that does not open do not (the last removes the session).',
     "level_note": "Trusted: Lean kernel, harness/driver, hashlink's list semantics as read from its source. The tie model<->code is "
                   "a sampled differential check in real time (margins, clock-checked), not a proof.",
 }
